@@ -202,6 +202,56 @@ add("C14", "client handshake",
     LV + "Reduced scope: the decision logic of Dial and the request object handed to net/http; serialisation and URL parsing are outside.",
     "trusted: engine translation, z3, object-level models of net/http, net/url, crypto/tls")
 
+HS_STUBS = STUB_COMMON + ["net/http ResponseWriter/Hijacker/ResponseController/Error -> recorder models (harness/models_http.go)", "crypto/sha1 -> uninterpreted function (congruent, collision-free)", "net/url.Parse -> answers from the harness's template knowledge"]
+
+add("C13", "default origin policy (reduced)",
+    [H("vfH_fold_diff", ["fold-diff-end"], 300, {"N": 3}), H("vfH_upgrade_logic", ["upgrade-success", "upgrade-refused"], 600, {"focus": 5}), TWIN("vfH_fold_diff")],
+    [H("vfH_fold_diff", ["fold-diff-end"], 3000, {"N": 4})],
+    ["equalASCIIFold(s, t) against the byte-wise reference (equal length, bytes equal after mapping A-Z to a-z only) for every s of <= 3 (thorough 4) arbitrary bytes - covering U+212A (E2 84 AA), U+017F (C5 BF), overlong and invalid sequences - and every ASCII t of <= 3 (4) bytes, in both argument orders",
+     "wiring: with CheckOrigin nil, Upgrade consults checkSameOrigin; origins built from templates (same host in symbolic case, different host, missing port, suffix look-alike) yield 101 resp. 403 without hijacking"],
+    ["everything url.Parse decides (userinfo tricks, ports, IPv6 literals, unparsable values): the standard parser is not executed; this is the largest hole of this check", "hosts longer than the bound"],
+    ["r.Host is ASCII (net/http delivers only hosts that pass httpguts.ValidHostHeader)", "url.Parse returns the host the template was built from"], HS_STUBS,
+    LV + "Reduced scope: the comparison function for all short strings and the wiring of the default policy; URL parsing is outside.",
+    "trusted: engine translation (real unicode/utf8 decoder executed from SSA), z3; url.Parse modelled")
+
+add("C15", "compression agreement",
+    [H("vfH_offer_variants", ["offer-variants-end"], 300), H("vfH_upgrade_logic", ["upgrade-success"], 600, {"focus": 9}), H("vfH_dial_logic", ["dial-success", "dial-refused"], 600, {"dim": 11}),
+     H("vfH_negotiate", ["negotiate-end"], 400), H("vfH_compress_toggle", ["toggle-end"]), H("vfH_read_step_data", ["step-accepted"], 500), TWIN("vfH_negotiate")],
+    [H("vfH_offer_variants", ["offer-variants-end"], 2400, {"tier": 1}), H("vfH_rt_e2e", ["rt-e2e-end"], 900, {"M": 2})],
+    ["client and server negotiation code joined through their header maps for all four (Dialer.EnableCompression, Upgrader.EnableCompression) combinations and caller-supplied offers; server alone against offers from grammar templates (parameters, quoted strings, other extensions first, two lines, near-miss names, symbolic whitespace) and short arbitrary byte strings; client alone against replies with each / both / neither no_context_takeover parameter and extra extensions",
+     "frame level: RSV1 on a first data frame accepted iff a decompressor is configured (inductive step); EnableWriteCompression / SetCompressionLevel (symbolic level, all 2^64 ints) toggled between 3 messages with the stored-block model"],
+    ["real deflate output at any level", "offers longer than the templates"],
+    ASSUME_COMMON, HS_STUBS + [STUB_FLATE],
+    LV, "trusted: engine translation, z3, object-level net/http models, stored-block flate model")
+
+add("C16", "handshake cleanup and deadlines (reduced)",
+    [H("vfH_upgrade_logic", ["upgrade-post-hijack-failure", "upgrade-success"], 600, {"focus": 11}), H("vfH_dial_logic", ["dial-success", "dial-refused"], 600), H("vfH_connect_reply", ["connect-reply-end"]), TWIN("vfH_connect_reply")],
+    [H("vfH_dial_logic", ["dial-success", "dial-refused"], 3400, {"tier": 1}), H("vfH_upgrade_logic", ["upgrade-success"], 3000, {"tier": 1})],
+    DIAL_BOUNDS + ["server: hijack failure; transport fault at each of the first 3 post-hijack operations with HandshakeTimeout on/off: before hijack the library never touches the connection, after hijack every failure closes it, success leaves it open with the write deadline cleared",
+     "CONNECT proxy dialer: arbitrary reply status; refusal closes the proxy connection"],
+    DIAL_OUT + ["what tls.Conn.Close really does to the inner connection (documented, assumed)", "real timers"],
+    ["transports obey the io contracts"], DIAL_STUBS + HS_STUBS,
+    LV + "Reduced scope: which Close / SetDeadline calls happen on which path, under object-level models of net/http and crypto/tls.",
+    "trusted: engine translation, the call-trace models; lowest-confidence check together with C18")
+
+add("C17", "bytes at the handshake boundary",
+    [H("vfH_server_boundary", ["server-boundary-end"], 400), H("vfH_dial_logic", ["dial-success"], 600, {"dim": 14}), TWIN("vfH_server_boundary")],
+    [H("vfH_server_boundary", ["server-boundary-end"], 3000, {"tier": 1})],
+    ["server: two masked client messages (3- or 130-byte fragmented text with a ping between the fragments, 4-byte binary), the first k bytes already in the hijacked bufio.Reader and the rest in the socket, k over every structural boundary (+1), 0,1,2, 15-17, 124-127, T-1, T (thorough: every k), hijacked reader size {16, 256, 257, 4096}, ReadBufferSize {0, 64, 300}",
+     "client: the 101 response and two server messages in the same transport chunk; the response head is consumed through the connection's own bufio.Reader by the http.ReadResponse model"],
+    ["what net/http does with its buffer before Hijack", "the real http.ReadResponse's consumption (modelled as exactly the head)", "streams longer than ~150 bytes"],
+    ASSUME_COMMON, HS_STUBS,
+    LV, "trusted: engine translation (real bufio executed from SSA), object-level Hijack model")
+
+add("C18", "proxy and TLS on every path (reduced)",
+    [H("vfH_dial_logic", ["dial-success", "dial-refused"], 600), H("vfH_connect_reply", ["connect-reply-end"]), TWIN("vfH_dial_logic")],
+    [H("vfH_dial_logic", ["dial-success", "dial-refused"], 3400, {"tier": 1})],
+    DIAL_BOUNDS + ["trace assertions: first hop dialled with the applicable custom function to the proxy's (else the backend's) host:port with 80/443 defaults; exactly one CONNECT for the backend host:port with Basic Proxy-Authorization iff the proxy URL has a password; non-200 aborts and closes; for wss the request reaches Request.Write only on a connection for which tls.Client, HandshakeContext and (unless InsecureSkipVerify) VerifyHostname(URL host or configured ServerName) succeeded, on the direct, http-proxy and https-proxy paths; with NetDialTLSContext and no proxy no library-side TLS happens"],
+    DIAL_OUT + ["SOCKS5 proxies (proxy.FromURL is not executed)", "sequences of dials sharing one tls.Config"],
+    ["transports obey the io contracts"], DIAL_STUBS,
+    LV + "Reduced scope: call traces under stubs.",
+    "trusted: engine translation, call-trace models of crypto/tls and the dial hooks; lowest-confidence check together with C16")
+
 NA = {}
 
 json.dump(checks, open("checks.json", "w"), indent=1)
